@@ -319,9 +319,9 @@ theorem obj_nil : fromJson (.obj .nil) = .ok (.dict .nil) := by
 mutual
 theorem rt_val : (v : Val) → wfj v = true → fromJson (toJson v) = .ok (jImage v)
   | .null, _ => by simp [toJson, fromJson, jImage]
-  | .remove, _ => by simp [toJson, kindObj, fromJson, visitMap, s, jImage]
-  | .marker, _ => by simp [toJson, kindObj, fromJson, visitMap, s, jImage]
-  | .na, _ => by simp [toJson, kindObj, fromJson, visitMap, s, jImage]
+  | .remove, _ => by simp [toJson, kindObj, fromJson, visitMap, earlyReturn, s, jImage]
+  | .marker, _ => by simp [toJson, kindObj, fromJson, visitMap, earlyReturn, s, jImage]
+  | .na, _ => by simp [toJson, kindObj, fromJson, visitMap, earlyReturn, s, jImage]
   | .bool b, _ => by simp [toJson, fromJson, jImage]
   | .num n, h => by
     have := rt_num n (by
@@ -457,9 +457,13 @@ example : decodesTo (.dict (.cons (s "b") .marker (.cons (s "a") .marker .nil)))
 /-- a repeated key keeps its last value only -/
 example : decodesTo (.dict (.cons (s "a") .marker (.cons (s "a") .na .nil)))
     (fun v => match v with | .dict (.cons _ .na .nil) => true | _ => false) = true := by decide +kernel
-/-- a tag named `_kind` is taken for the type tag: `{_kind: "marker", a}` ↦ Marker; `{_kind: M}` is refused -/
-example : decodesTo (.dict (.cons (s "_kind") (.str (s "marker")) (.cons (s "a") .marker .nil)))
+/-- a tag named `_kind` is taken for the type tag: `{_kind: "marker"}` ↦ Marker; `{_kind: "marker", a}` is
+refused (the visitor returns at `_kind` and serde_json refuses the map it did not consume); `{_kind: M}` is
+refused -/
+example : decodesTo (.dict (.cons (s "_kind") (.str (s "marker")) .nil))
     (fun v => match v with | .marker => true | _ => false) = true := by decide +kernel
+example : (fromJson (toJson (.dict (.cons (s "_kind") (.str (s "marker")) (.cons (s "a") .marker .nil))))).tag = "err" := by
+  decide +kernel
 example : (fromJson (toJson (.dict (.cons (s "_kind") .marker .nil)))).tag = "err" := by decide +kernel
 /-- a grid meta tag `ver` is swallowed (and becomes the version when it is a Str) -/
 example : decodesTo (.grid (.some (.cons (s "ver") (.str (s "2.0")) .nil)) .nil .nil (s "3.0"))
